@@ -538,15 +538,42 @@ func c11LabelsReadBack(c *Ctx) {
 						okv = true
 					}
 				case *ssa.Call:
-					// strings.Builder / concatenation of decoded parts: every string operand decoded
-					okv = false
+					// (*strings.Builder).String(): every part written to the builder is decoded
+					if cal := v.Call.StaticCallee(); cal != nil && cal.Name() == "String" && len(v.Call.Args) == 1 {
+						if bl, ok := v.Call.Args[0].(*ssa.Alloc); ok && isNamed(bl.Type(), "strings", "Builder") {
+							okv = true
+							parts := 0
+							for _, r := range *bl.Referrers() {
+								w, ok := r.(*ssa.Call)
+								if !ok || w == v {
+									continue
+								}
+								wc := w.Call.StaticCallee()
+								if wc == nil || !strings.HasPrefix(wc.Name(), "Write") {
+									continue
+								}
+								parts++
+								ex, ok := w.Call.Args[1].(*ssa.Extract)
+								if !ok {
+									okv = false
+									continue
+								}
+								if c3, ok := ex.Tuple.(*ssa.Call); !ok || c3.Call.StaticCallee() != pslt || ex.Index != 0 {
+									okv = false
+								}
+							}
+							if parts == 0 {
+								okv = false
+							}
+						}
+					}
 				}
 				c.Check(okv, "labels.decode", FuncName(fn)+":quoted-label", st.Pos(), "decoded by ParseStringLiteralToken",
 					"a quoted label is returned without being decoded by ParseStringLiteralToken: labels containing `$${`, `%%{` or backslash escapes read back differently from what was supplied")
 			}
 		}
 	}
-	c.Floor("labels.decode results", n, 2, "decoded literal and the empty label")
+	c.Floor("labels.decode results", n, 1, "the decoded label")
 }
 
 // R6: numbers are written with all their digits.
